@@ -83,7 +83,12 @@ def build(spec, wd):
         rows.append((i, tgt, 1 + i // 2 if i % 7 else 1 + i // 3, f1, f2, f3))
     d = {"SpecId": ["r%d" % r[0] for r in rows], "Label": [1 if r[1] else -1 for r in rows], "ScanNr": [r[2] for r in rows],
          "filename": ["run%d.mzML" % (r[2] % 3) for r in rows],      # a string-valued spectrum-key column (its hash() depends on PYTHONHASHSEED)
-         "ExpMass": [500.0 + (r[2] % 11) for r in rows], "f1": [r[3] for r in rows], "f2": [r[4] for r in rows],
+         "ExpMass": [500.0 + (r[2] % 11) for r in rows], "f1": [r[3] for r in rows],
+         # two feature columns with a missing value each: the parser drops them, and the ORDER of the features it keeps
+         # (the order of the model coefficients) must not depend on the session (command-line sessions parse the file)
+         "g1": [float("nan") if r[0] == 5 else r[4] * 0.5 for r in rows],
+         "f2": [r[4] for r in rows],
+         "g2": [float("nan") if r[0] in (3, 17) else r[5] + 1.0 for r in rows],
          "f3": [r[5] for r in rows]}
     if tpeps:
         d["Peptide"] = [("K." + (tpeps if r[1] else dpeps)[int(rng.integers(0, len(tpeps if r[1] else dpeps)))] + ".A") for r in rows]
